@@ -13,6 +13,9 @@
 //   - sub2path : {label}.{ns}.{gateway} hosts with canonical and non-canonical
 //     labels (CIDv0, other bases, over-long, wrong codec for /ipns, inlined and
 //     plain DNSLink names) followed until `next`.
+//     Single hyphenated labels are unambiguous when exactly one of the two
+//     readings (label as written, un-inlined dotted name) has a DNSLink record;
+//     then that reading is the identity, on path2sub follow-ups and sub2path.
 //   - dnshost  : DNSLink hosts (with ports, with/without record, NoDNSLink).
 //   - frag     : path2sub requests that carry a URL fragment.
 //   - xfh      : path2sub / sub2path requests that arrive the way a reverse
@@ -49,7 +52,7 @@ import (
 func main() { vlib.Run("C32", run) }
 
 func run(c *vlib.Ctx) {
-	c.Rule("every case draws a PublicGateways map (2-5 of: dweb.link, localhost, localhost:8080, gw.example.com, example.org + gw.example.org (nested), sub-domain.example.org, *.wild.example.net, 127.0.0.1:8080; UseSubdomains/InlineDNSLink/NoDNSLink random; Paths from /ipfs,/ipns,/ipld,/p2p) and a DNSLink table, then 6 requests. ids: CIDs (sha2-256/512, sha3, blake2b, identity of 0-40 bytes; codecs dag-pb, raw, dag-cbor, dag-json, libp2p-key; text in v0, base32, base32upper, base36, base58btc, base16, base64url), peer IDs (ed25519, secp256k1, rsa-like; legacy base58, CIDv1 base32/base36, CIDv1 with dag-pb codec), LDH DNS names with hyphens incl. xn-- and names shaped like subdomain-gateway hosts; remainders with unicode, %, ?, #, spaces, trailing slashes; queries; X-Forwarded-Proto https. inline stratum: 16 LDH names per case, half with inlined length 58..68. non-trivial: path2sub/frag = a redirect was followed to `next` with a non-empty remainder and a query; sub2path = a non-canonical or inlined label reached `next`; dnshost = a host with a port and a record was mapped; xfh = as path2sub/sub2path with every request delivered through X-Forwarded-Host; inline = a name with a hyphen and at least two dots round-tripped and one name was refused for length. distinct = FNV of config + requests")
+	c.Rule("every case draws a PublicGateways map (2-5 of: dweb.link, localhost, localhost:8080, gw.example.com, example.org + gw.example.org (nested), sub-domain.example.org, *.wild.example.net, 127.0.0.1:8080; UseSubdomains/InlineDNSLink/NoDNSLink random; Paths from /ipfs,/ipns,/ipld,/p2p) and a DNSLink table, then 6 requests. ids: CIDs (sha2-256/512, sha3, blake2b, identity of 0-40 bytes; codecs dag-pb, raw, dag-cbor, dag-json, libp2p-key; text in v0, base32, base32upper, base36, base58btc, base16, base64url), peer IDs (ed25519, secp256k1, rsa-like; legacy base58, CIDv1 base32/base36, CIDv1 with dag-pb codec), LDH DNS names with hyphens incl. xn-- and names shaped like subdomain-gateway hosts, single hyphenated labels ('my-site') whose DNSLink record exists only for the label as written / only for the un-inlined reading / both / neither; remainders with unicode, %, ?, #, spaces, trailing slashes; queries; X-Forwarded-Proto https. inline stratum: 16 LDH names per case, half with inlined length 58..68. non-trivial: path2sub/frag = a redirect was followed to `next` with a non-empty remainder and a query; sub2path = a non-canonical or inlined label reached `next`; dnshost = a host with a port and a record was mapped; xfh = as path2sub/sub2path with every request delivered through X-Forwarded-Host; inline = a name with a hyphen and at least two dots round-tripped and one name was refused for length. distinct = FNV of config + requests")
 	c.Cases("path2sub", c.N(1300, 32000), func(k *vlib.Case) { hostCase(k, "path2sub") })
 	c.Cases("sub2path", c.N(1100, 27000), func(k *vlib.Case) { hostCase(k, "sub2path") })
 	c.Cases("dnshost", c.N(500, 12000), func(k *vlib.Case) { hostCase(k, "dnshost") })
@@ -411,6 +414,58 @@ func genFQDN(r *vlib.Rand, target int) string {
 	}
 }
 
+// genSingleLabel returns a DNSLink name that is ONE label with hyphens
+// ("my-site", "intra-net-wiki") together with its un-inlined (dotted) reading.
+// Neither reading decodes as a CID or peer ID.
+func genSingleLabel(r *vlib.Rand) (label, dotted string) {
+	for {
+		n := r.Range(2, 4)
+		var ws []string
+		for i := 0; i < n; i++ {
+			b := make([]byte, r.Range(1, 8))
+			for j := range b {
+				b[j] = alnum[r.Intn(len(alnum))]
+			}
+			ws = append(ws, string(b))
+		}
+		label, dotted = strings.Join(ws, "-"), strings.Join(ws, ".")
+		if _, err := cid.Decode(label); err == nil {
+			continue
+		}
+		if _, err := peer.Decode(label); err == nil {
+			continue
+		}
+		return label, dotted
+	}
+}
+
+// singleLabelRecords draws which of the two readings of a hyphenated single
+// label has a DNSLink record and returns the identity that follows from it:
+// "own" (only the label as written) -> the label; "dotted" (only the
+// un-inlined reading) -> the dotted name; both / neither -> ambiguous by
+// design (boxo prefers the dotted reading), no verdict.
+func (w *world) singleLabelRecords(r *vlib.Rand, ns, label, dotted string) (mode string, want ident) {
+	switch x := r.Intn(100); {
+	case x < 45:
+		mode, want = "own", ident{kind: "dns", ns: ns, dns: label}
+		w.setRecord(label, true)
+		w.setRecord(dotted, false)
+	case x < 80:
+		mode, want = "dotted", ident{kind: "dns", ns: ns, dns: dotted}
+		w.setRecord(label, false)
+		w.setRecord(dotted, true)
+	case x < 90:
+		mode = "both"
+		w.setRecord(label, true)
+		w.setRecord(dotted, true)
+	default:
+		mode = "neither"
+		w.setRecord(label, false)
+		w.setRecord(dotted, false)
+	}
+	return mode, want
+}
+
 var restSegs = []string{"a", "index.html", "wiki", "c d", "ü", "日本", "%", "%2F", "a%20b", "?", "#", "a?b#c", "..", ".", "...", "-", "~", "a:b", "+", "&", "=", "ipfs", "Qm", "\\", "\"", "<x>", "ipns"}
 var queries = []string{"", "", "a=1", "format=car&dag-scope=all", "filename=%E2%9C%93.txt&download=true", "x=%2F%3F%23", "a=b=c&&d", "q=a+b", "empty=", "format=raw", "entity-bytes=0:100"}
 
@@ -559,7 +614,10 @@ func (w *world) genID(r *vlib.Rand, ns string) idSpec {
 	case peerNS(ns) && x < 5:
 		_, s, form := genPeer(r)
 		return idSpec{kind: "peer", text: s, form: form}
-	case ns == "ipns" && x < 9:
+	case ns == "ipns" && x == 8:
+		l, d := genSingleLabel(r)
+		return idSpec{kind: "dns1", text: l, form: d}
+	case ns == "ipns" && x < 8:
 		target := 0
 		if r.Chance(1, 4) {
 			target = r.Range(60, 66)
@@ -594,9 +652,15 @@ func (w *world) path2sub(r *vlib.Rand, withFragment bool) bool {
 		hasRec = r.Chance(3, 4)
 		w.setRecord(id.text, hasRec)
 	}
+	slMode, slDotted := "", ""
+	var slWant ident
+	if id.kind == "dns1" {
+		slDotted = id.form
+		slMode, slWant = w.singleLabelRecords(r, ns, id.text, slDotted)
+	}
 	p := "/" + ns + "/" + id.text + rest
 	rq := reqSpec{host: g.host, path: p, rawQuery: q, fragment: frag, https: https}
-	k.Logf("GET host=%s path=%q query=%q fragment=%q https=%v  [%s %s]", rq.host, rq.path, rq.rawQuery, rq.fragment, https, id.kind, id.form)
+	k.Logf("GET host=%s path=%q query=%q fragment=%q https=%v  [%s %s %s]", rq.host, rq.path, rq.rawQuery, rq.fragment, https, id.kind, id.form, slMode)
 	want, valid := identOf(ns, id.text)
 	if !valid {
 		panic("generator produced an invalid id: " + ns + " " + id.text)
@@ -618,6 +682,9 @@ func (w *world) path2sub(r *vlib.Rand, withFragment bool) bool {
 			w.fail("path-gateway/altered", "a path gateway passes the request on unchanged", fmt.Sprintf("next(path=%q query=%q)", p, q), describe(first))
 		}
 		return false
+	}
+	if id.kind == "dns1" {
+		return w.path2subSingleLabel(g, ns, id.text, slDotted, slMode, slWant, https, wantRest, q, outs, reqs)
 	}
 	// --- subdomain gateway: a redirect is expected
 	refuse := false
@@ -717,6 +784,66 @@ func (w *world) path2sub(r *vlib.Rand, withFragment bool) bool {
 	return wantRest != "" && q != ""
 }
 
+// path2subSingleLabel: /ipns/{single hyphenated label} on a subdomain gateway.
+// The label may be a host name of its own ("own": only it has a record) or the
+// inlined spelling of a dotted name ("dotted": only that has a record).
+func (w *world) path2subSingleLabel(g gwInfo, ns, label, dotted, mode string, want ident, https bool, wantRest, q string, outs []outcome, reqs []reqSpec) bool {
+	first := outs[0]
+	feat := "dns-single-" + mode
+	if first.kind != "redirect" {
+		w.fail("redirect/missing/"+feat, "a path request for a DNSLink name on a subdomain gateway is redirected to the subdomain URL", "301 to {label}."+ns+"."+g.host, describe(first))
+		return false
+	}
+	w.k.C.Count("redirects", 1)
+	u, err := url.Parse(first.location)
+	if err != nil || u.Host == "" {
+		w.fail("redirect/location-unparsable", "Location is an absolute URL", "absolute URL", first.location)
+		return false
+	}
+	suffix := "." + ns + "." + g.host
+	if !strings.HasSuffix(u.Host, suffix) {
+		w.fail("redirect/host-suffix/"+feat, "Location host is {label}.{ns}.{gateway host}", "*"+suffix, u.Host)
+		return false
+	}
+	got := strings.TrimSuffix(u.Host, suffix)
+	switch mode {
+	case "own":
+		if got != label {
+			w.fail("identity/location/"+feat, "a single-label DNSLink name with its own record is kept as is", label, got)
+		}
+	case "dotted":
+		exp := dotted
+		if g.spec.InlineDNSLink || https {
+			exp = label
+		}
+		if got != exp {
+			w.fail("identity/location/"+feat, "an inlined name given on a path is un-inlined (and re-inlined only on inlining gateways)", exp, got)
+		}
+	}
+	if normRest(u.Path) != wantRest {
+		w.fail("remainder/location", "the redirect keeps the remainder", "/"+wantRest, u.Path)
+	}
+	if u.RawQuery != q {
+		w.fail("query/location", "the redirect keeps the query", q, u.RawQuery)
+	}
+	if mode != "own" && mode != "dotted" {
+		w.k.C.Count("ambiguous_inlined_labels_skipped", 1)
+		return false
+	}
+	final := outs[len(outs)-1]
+	if final.kind != "next" {
+		cls := "reentry/not-served/"
+		if final.kind == "redirect" {
+			cls = "reentry/redirect-loop/"
+		}
+		w.fail(cls+feat, "following the redirect reaches the content handler", "next handler", fmt.Sprintf("%s after %d hops (last request host=%s)", describe(final), len(outs), reqs[len(reqs)-1].host))
+		return false
+	}
+	w.checkServed("path2sub", feat, final, ns, want, wantRest, q)
+	w.k.C.Count("single_label_names_followed", 1)
+	return wantRest != "" && q != ""
+}
+
 func describe(o outcome) string {
 	switch o.kind {
 	case "next":
@@ -791,7 +918,17 @@ func (w *world) sub2path(r *vlib.Rand) bool {
 	noncanon := false
 	x := r.Intn(10)
 	switch {
-	case ns == "ipns" && x < 4:
+	case ns == "ipns" && x == 3:
+		// one hyphenated label: a host name of its own or an inlined spelling
+		l, d := genSingleLabel(r)
+		mode, wnt := w.singleLabelRecords(r, ns, l, d)
+		label, want, noncanon = l, wnt, true
+		form = "dns-single-" + mode
+		if mode != "own" && mode != "dotted" {
+			want = ident{kind: "dns", ns: ns, dns: d}
+			form = "dns-single-" + mode + "-norecord" // ambiguous: no verdict
+		}
+	case ns == "ipns" && x < 3:
 		// DNSLink name, inlined or plain
 		target := 0
 		if r.Chance(1, 4) {
@@ -845,14 +982,14 @@ func (w *world) sub2path(r *vlib.Rand) bool {
 		// other content may be served under this name
 		if final.kind == "next" {
 			if gns, gid, _, ok := splitContentPath(final.seen.path); ok && gns == ns {
-				if got, ok := identOf(gns, gid); ok && got.kind == want.kind && got != want && form != "dns-inlined-norecord" {
+				if got, ok := identOf(gns, gid); ok && got.kind == want.kind && got != want && !strings.HasSuffix(form, "-norecord") {
 					w.fail("identity/sub2path-unhandled/"+feat, "no other content is served for this host", want.String(), got.String())
 				}
 			}
 		}
 		return false
 	}
-	if form == "dns-inlined-norecord" {
+	if strings.HasSuffix(form, "-norecord") {
 		k.C.Count("ambiguous_inlined_labels_skipped", 1)
 		return false
 	}
